@@ -38,9 +38,9 @@ def scaledCorrection (fw fh tw th : Nat) (g : Geo) : Geo :=
   let h4 : Int := if y2 + h3 > th then (th : Int) - y2 else h3
   ⟨x2, y2, w4.toNat, h4.toNat⟩
 
-/-- `ScaleX(from, to, v)` for a possibly negative `v`: `(int)(((double)v / from) * to)` -/
+/-- `ScaleX(from, to, v)`: `(int)(((int64_t)v * to) / from)` — C division truncates towards zero -/
 def scaleInt (fromW toW : Nat) (v : Int) : Int :=
-  let a := truncF ((Float.ofNat v.natAbs / Float.ofNat fromW) * Float.ofNat toW)
+  let a := v.natAbs * toW / fromW
   if v < 0 then -(a : Int) else a
 
 /-! ### session state -/
@@ -173,6 +173,13 @@ def serverInitBytes (s : Screen) : Bytes :=
 
 /-! ### planning of one FramebufferUpdate (at the time the pre-encode hook fires) -/
 
+/-- rfbSendCursorShape (with fix C03-cursor-too-big): a cursor whose rectangle does not fit into an
+empty update buffer is replaced by the empty cursor -/
+def cursorFits (rich : Bool) (bpp w h : Nat) : Bool :=
+  let maskBytes := (w + 7) / 8 * h
+  let dataBytes := if rich then w * h * bpp else maskBytes
+  sz_rfbFramebufferUpdateRectHeader + sz_rfbXCursorColors + maskBytes + dataBytes ≤ UPDATE_BUF_SIZE
+
 structure HookObs where
   dx : Int
   dy : Int
@@ -209,10 +216,11 @@ def planUpdate (s : Screen) (c : Conn) (o : HookObs) : Conn × Pred :=
   let nRects := nRectsField o.cpy.length regionN pseudoN
   let dxs := if scaledOn then scaleInt s.w vw o.dx else o.dx
   let dys := if scaledOn then scaleInt s.w vw o.dy else o.dy      -- ScaleX is used for dy too
+  let curEnc := if k.richCursor then rfbEncodingRichCursor else rfbEncodingXCursor
   let pseudo : List RPat :=
     (if sendShape then
-      [RPat.cursor (if k.richCursor then rfbEncodingRichCursor else rfbEncodingXCursor)
-        s.curXhot s.curYhot s.curW s.curH] else []) ++
+      [if cursorFits k.richCursor c.bpp s.curW s.curH then RPat.cursor curEnc s.curXhot s.curYhot s.curW s.curH
+       else RPat.cursor curEnc 0 0 0 0] else []) ++
     (if sendPos then [RPat.pseudo rfbEncodingPointerPos] else []) ++
     (if sendLed then [RPat.pseudo rfbEncodingKeyboardLedState] else []) ++
     (if sendSM then [RPat.pseudo rfbEncodingSupportedMessages] else []) ++
@@ -243,33 +251,47 @@ def showGeo (g : Geo) : String := s!"{g.x},{g.y},{g.w},{g.h}"
 
 def showHdr (h : RectHdr) : String := s!"{h.enc}@{h.x},{h.y},{h.w},{h.h}"
 
-/-- `none` = the rectangles are exactly what was predicted -/
-def matchPats : List RPat → List Rect → Nat → Option String
+/-- `none` = the rectangles are exactly what was predicted.  A `tightAny` pattern stands for one or
+more Tight rectangles inside its region rectangle; scaled region rectangles may overlap, so the
+number it stands for is found by trying the shortest run first (`fuel` bounds the search). -/
+def matchPats (fuel : Nat) : List RPat → List Rect → Nat → Option String
   | [], [], _ => none
   | [], r :: _, i => some s!"rect {i}: unexpected extra rectangle {showHdr r.hdr}"
   | p :: _, [], i => some s!"rect {i}: missing, predicted {repr p}"
   | .exact g encs :: ps, r :: rs, i =>
-    if geoOf r.hdr = g ∧ encs.contains r.hdr.enc then matchPats ps rs (i + 1)
+    if geoOf r.hdr = g ∧ encs.contains r.hdr.enc then matchPats fuel ps rs (i + 1)
     else some s!"rect {i}: got {showHdr r.hdr}, predicted {showGeo g} enc∈{encs}"
   | .pseudo e :: ps, r :: rs, i =>
-    if r.hdr.enc = e then matchPats ps rs (i + 1)
+    if r.hdr.enc = e then matchPats fuel ps rs (i + 1)
     else some s!"rect {i}: got {showHdr r.hdr}, predicted pseudo-encoding {e}"
   | .cursor e xh yh w h :: ps, r :: rs, i =>
-    if r.hdr = ⟨xh, yh, w, h, e⟩ then matchPats ps rs (i + 1)
+    if r.hdr = ⟨xh, yh, w, h, e⟩ then matchPats fuel ps rs (i + 1)
     else some s!"rect {i}: got {showHdr r.hdr}, predicted cursor {e}@{xh},{yh},{w},{h}"
   | .copy g sx sy :: ps, r :: rs, i =>
     if r.hdr.enc = rfbEncodingCopyRect ∧ geoOf r.hdr = g ∧ copySrc r = some (sx, sy) then
-      matchPats ps rs (i + 1)
+      matchPats fuel ps rs (i + 1)
     else some s!"rect {i}: got {showHdr r.hdr} src {repr (copySrc r)}, predicted CopyRect {showGeo g} from {sx},{sy}"
   | .tightAny e g :: ps, r :: rs, i =>
     if r.hdr.enc = e ∧ insideGeo (geoOf r.hdr) g then
-      -- consume every further rectangle of this encoding inside g
-      let rest := rs.dropWhile fun q => q.hdr.enc == e && insideGeo (geoOf q.hdr) g
-      matchPats ps rest (i + 1 + (rs.length - rest.length))
+      match fuel with
+      | 0 => some s!"rect {i}: search for the end of a Tight run gave up"
+      | fuel + 1 =>
+        match matchPats fuel ps rs (i + 1) with
+        | none => none
+        | some err =>
+          -- let the run continue with the next rectangle, if it can belong to it
+          match rs with
+          | q :: _ =>
+            if q.hdr.enc = e ∧ insideGeo (geoOf q.hdr) g then
+              match matchPats fuel (.tightAny e g :: ps) rs (i + 1) with
+              | none => none
+              | some _ => some err
+            else some err
+          | [] => some err
     else some s!"rect {i}: got {showHdr r.hdr}, predicted Tight rectangles inside {showGeo g}"
 
 def checkPred (p : Pred) (nRects : Nat) (rs : List Rect) : Option String :=
   if nRects ≠ p.nRects then some s!"announced nRects {nRects}, predicted {p.nRects}"
-  else matchPats p.pats rs 0
+  else matchPats (rs.length + 1) p.pats rs 0
 
 end VncModel.Wire
